@@ -816,6 +816,8 @@ def configs(chk):
             for n in range(1, nmax + 1):
                 if quick and mode == "LW" and shape == "vector" and n > 1:
                     continue    # per-point (L, W) on two points: minutes of nlsat model search; thorough tier
+                if "L" in mode and shape == "vector" and n > 2:
+                    continue    # per-point lengths on three points: the grid limits fork too often (> 20 min)
                 jobs.append(("slit1d", {"mode": mode, "shape": shape, "n": n}))
                 if shape == "scalar" or not quick:
                     for nc in ((2, 3) if quick else (2, 3, 4, 5)):
@@ -842,7 +844,7 @@ def run(chk):
         "Each path gives weight / grid terms; non-negativity, unit column sums, q_calc > 0 and spanning every "
         "point's window, zero-width identity, linearity of apply, scale/background pass-through and absence of "
         "exceptions are z3 obligations (unsat of the negation); counterexamples are replayed on the real code with floats.")
-    chk.bounds = {"data points": "1..%d" % (2 if chk.quick else 3),
+    chk.bounds = {"data points": "1..%d" % (2 if chk.quick else 3) + " (per-point slit lengths: 1..2)",
                   "q_calc points (matrix builders / user grids)": "2..%d" % (4 if chk.quick else 5),
                   "bin edges (_q_perp_weights)": "2..%d" % (4 if chk.quick else 6),
                   "grid-extension trip count per side": "<= %d (1-point data: the code's fixed 15)" % RS.MAXEXT,
